@@ -105,7 +105,10 @@ func c01StreamShort(rng *rand.Rand) []byte {
 func c01History(t datarep.Table, idx int, rng *rand.Rand) (int, []evid.Div, error) {
 	mode := idx % 3 // 0 plain, 1 STARTTLS available, 2 implicit TLS
 	lmtp := (idx/3)%2 == 1
-	cfg := drv.Cfg{LMTP: lmtp, MaxLine: 200, Binarymime: true, TLSAvail: mode >= 1, ImplicitTLS: mode == 2}
+	// (LMTP: half of the connections have a per-recipient backend that reports
+	// its statuses BEFORE it reads the message, and then reads it slowly)
+	perRcpt := lmtp && (idx/6)%2 == 1
+	cfg := drv.Cfg{LMTP: lmtp, LMTPBackend: perRcpt, MaxLine: 200, Binarymime: true, TLSAvail: mode >= 1, ImplicitTLS: mode == 2}
 	srv := drv.Start(cfg)
 	defer srv.Stop()
 	cn, err := srv.Dial()
@@ -183,11 +186,21 @@ func c01History(t datarep.Table, idx int, rng *rand.Rand) (int, []evid.Div, erro
 		}
 		wireMsg = wireMsg[:exp.Consumed]
 		plan := rec.DataPlan{Propagate: true, Buf: []int{1, 2, 3, 7, 4096}[rng.Intn(5)]}
+		if perRcpt {
+			plan.Status = []rec.StatusOp{{Addr: fmt.Sprintf("r%d@x.test", m)}}
+			plan.Buf = 1 + rng.Intn(2)
+		}
 		be.Lock()
 		be.DataPlans = append(be.DataPlans, plan)
 		be.Unlock()
 		mark := be.NumCalls()
 		if rs, _, err := cn.Replies([]byte(fmt.Sprintf("MAIL FROM:<s%d@x.test>\r\nRCPT TO:<r%d@x.test>\r\nDATA\r\n", m, m))); err != nil {
+			var stuck *drv.StuckError
+			if asStuck(err, &stuck) {
+				divs = append(divs, evid.Div{Prop: "C01", Key: "history:reader-fault:" + between, Msg: fmt.Sprintf("message %d of a connection (mode %d, lmtp %v, per-recipient backend %v) after %v: %v\n%s", m, mode, lmtp, perRcpt, hist, stuck, stuck.Dump),
+					Replay: map[string]interface{}{"engine": "c01-history", "index": idx, "history": hist}})
+				return nmsg, divs, nil
+			}
 			return nmsg, divs, err
 		} else if len(rs) != 3 || rs[0].Code != 250 || rs[2].Code != 354 {
 			// commands do not resume where the previous message ended
